@@ -770,6 +770,7 @@ pub fn execute(case: &Case, ctx: &mut Ctx) {
                         sim_days: None,
                         hash_seed: case.hash_seed,
                         init_offset: None,
+                        init_speed_unset: false,
                     };
                     let mut c2 = Ctx::default();
                     trn::execute(&sub, &mut c2);
